@@ -14,7 +14,7 @@ import IronCalc.Eval.Store
   Numbers are abstract (`NumOps`): the theorems hold for every instance; the driver instantiates it
   with hardware doubles.  `Cfg.andOrShortCircuit` distinguishes the reference rule (an error in ANY
   argument of AND/OR is propagated, as in Excel) from the pinned engine (stops at the first deciding
-  value, finding F06a).
+  value; finding F06a, repaired by a fix commit — the driver runs `Cfg.reference`).
 -/
 namespace IronCalc.Core
 
@@ -249,7 +249,13 @@ def concatElem (x y : Val N) : Val N :=
   | .error e, _ => .err e
   | _, .error e => .err e
 
-def cmpElem (op : BinOp) (x y : Val N) : Val N := .bool (applyCmp op (compareValues O x y))
+/-- one element of a comparison: like the other operators an error element is propagated, the left
+    one first (the pinned engine ordered error elements of array operands instead; fix F06c) -/
+def cmpElem (op : BinOp) (x y : Val N) : Val N :=
+  match x, y with
+  | .err e, _ => .err e
+  | _, .err e => .err e
+  | x, y => .bool (applyCmp op (compareValues O x y))
 
 /-- a scalar operand or an array operand; ranges become arrays of their cells -/
 inductive Operand (N : Type)
